@@ -167,15 +167,15 @@ Ltac simt e :=
   |].
 
 (** One step: the monitor accepts the event and the simulation carries on. *)
-Lemma monitor_step : forall st ms l st',
+Lemma monitor_step : forall gev st ms l st',
   Inv c st -> Sim c n st ms -> step c st l = Some st' ->
-  match step_event c st l with
+  match step_event_g gev c st l with
   | Some (t, e) => exists m, nth_error ms t = Some m /\ mon_ok n ms m e = true /\ Sim c n st' (upd t (mon_upd m e) ms)
   | None => Sim c n st' ms
   end.
 Proof.
-  intros st ms l st' I SM ST. pose proof ST as ST0. apply (step_cases _ _ _ _ (proj2 GD)) in ST.
-  destruct ST as [G R|G R|k G F X|G F X|i th th' b' G N TC]; unfold step_event; try rewrite G.
+  intros gev st ms l st' I SM ST. pose proof ST as ST0. apply (step_cases _ _ _ _ (proj2 GD)) in ST.
+  destruct ST as [G R|G R|k G F X|G F X|i th th' b' G N TC]; unfold step_event_g; try rewrite G.
   - (* start *)
     destruct SM as [L SS]. rewrite G in SS. split; auto. cbn [gp round ths].
     intros j th m Hj Hm. apply nth_error_In in Hj. apply in_map_iff in Hj. destruct Hj as (y & <- & _).
@@ -214,8 +214,11 @@ Proof.
         try (simt (@None evk); exact CE).
       exists m. split; [exact Mi|]. split; [reflexivity|].
       simt (Some (ELeave w)). exact CE.
-    + (* leave, unwinding *)
-      simt (@None evk). rewrite EM.
+    + (* leave, unwinding: EGLeave if logged *)
+      destruct gev; [|simt (@None evk); rewrite EM;
+        apply counters_same; auto; try (unfold panicked; cbn; rewrite ?M; reflexivity)].
+      exists m. split; [exact Mi|]. split; [reflexivity|].
+      simt (Some EGLeave). cbn [mon_upd]. rewrite EM.
       apply counters_same; auto; try (unfold panicked; cbn; rewrite ?M; reflexivity).
     + (* return *)
       apply prog_none in PL. rewrite PL.
@@ -299,33 +302,51 @@ Proof.
             replace (2 * n + 4 <? pc th) with true by (symmetry; apply Nat.ltb_lt; lia). cbn [b2n]. lia. }
           rewrite ME, (L3 G3). apply Nat.leb_le. lia. }
         destruct o; exact D.
-    + (* guard: done *)
+    + (* guard: done, no event *)
+      rewrite R0. cbn [Nat.eqb negb]. rewrite andb_false_r.
       simt (@None evk). rewrite EM.
       apply counters_same; auto; try (unfold panicked; cbn; rewrite ?M; reflexivity).
-    + simt (@None evk). rewrite EM.
+    + (* guard wait, releasing: EGArrive if logged *)
+      rewrite RK. cbn [Nat.eqb negb]. rewrite andb_true_r.
+      destruct gev; [|simt (@None evk); rewrite EM;
+        apply counters_same; auto; try (unfold panicked; cbn; rewrite ?M; reflexivity)].
+      exists m. split; [exact Mi|]. split; [reflexivity|].
+      simt (Some EGArrive). cbn [mon_upd]. rewrite EM.
       apply counters_same; auto; try (unfold panicked; cbn; rewrite ?M; reflexivity).
-    + simt (@None evk). rewrite EM.
+    + (* guard wait, blocking: EGArrive if logged *)
+      rewrite RK. cbn [Nat.eqb negb]. rewrite andb_true_r.
+      destruct gev; [|simt (@None evk); rewrite EM;
+        apply counters_same; auto; try (unfold panicked; cbn; rewrite ?M; reflexivity)].
+      exists m. split; [exact Mi|]. split; [reflexivity|].
+      simt (Some EGArrive). cbn [mon_upd]. rewrite EM.
       apply counters_same; auto; try (unfold panicked; cbn; rewrite ?M; reflexivity).
 Qed.
 
-Lemma monitor_events : forall tr st ms,
-  Inv c st -> Sim c n st ms -> monitor n ms (events c st tr) = true.
+Lemma monitor_events : forall gev tr st ms,
+  Inv c st -> Sim c n st ms -> monitor n ms (events_g gev c st tr) = true.
 Proof.
-  induction tr as [|l t IH]; intros st ms I SM; [reflexivity|]. cbn [events].
+  intros gev. induction tr as [|l t IH]; intros st ms I SM; [reflexivity|]. cbn [events_g].
   destruct (step c st l) as [st'|] eqn:ST; [|reflexivity].
-  pose proof (monitor_step _ _ _ _ I SM ST) as MS.
+  pose proof (monitor_step gev _ _ _ _ I SM ST) as MS.
   assert (Inv c st') as I' by (eapply inv_step; eauto).
-  destruct (step_event c st l) as [[t0 e]|].
+  destruct (step_event_g gev c st l) as [[t0 e]|].
   - destruct MS as (m & Hm & OKm & SM'). cbn [monitor]. rewrite Hm, OKm. cbn [andb]. apply IH; auto.
   - apply IH; auto.
 Qed.
 
-Theorem log_sb_model : forall tr, log_sb (nthreads c) n (events c (init c) tr) = true.
+Lemma log_sb_model_g : forall gev tr, log_sb (nthreads c) n (events_g gev c (init c) tr) = true.
 Proof.
-  intros tr. unfold log_sb. apply monitor_events.
+  intros gev tr. unfold log_sb. apply monitor_events.
   - apply inv_init.
   - split; [apply repeat_length|]. cbn [gp init round].
     intros m HI. apply repeat_spec in HI. subst. reflexivity.
 Qed.
+
+Theorem log_sb_model : forall tr, log_sb (nthreads c) n (events c (init c) tr) = true.
+Proof. exact (log_sb_model_g false). Qed.
+
+(** ... and of the full log, the guard's waits (hook H5) included. *)
+Theorem log_sb_model_full : forall tr, log_sb (nthreads c) n (events_full c (init c) tr) = true.
+Proof. exact (log_sb_model_g true). Qed.
 
 End Monitor.
